@@ -30,9 +30,11 @@ try:
             break
         stub.update(new)
     fails = [(f['clause'] or 'body', f['fn']) for f in r.failures if (f['clause'] or 'body', f['fn']) not in known]
+    hard = [(f['clause'] or 'body', f['fn']) for f in r.failures if (f['clause'] or 'body', f['fn']) not in known and f.get('clause_kind') in ('ensures', 'requires')]
     lost = [k for (k, _, _) in g.lost] + list(stub.keys())
     out.append('verus: verified=%d failed=%s lost/stubbed=%s soft=%d' % (r.verified, fails, lost, len(r.soft)))
-    alarm = bool(fails)
+    alarm = bool(hard)
+    proof_steps_only = bool(fails) and not hard
     # witness: all suites
     ww = os.path.join(d, 'w'); os.makedirs(ww)
     allsuites = sorted(set(s for v in witness.SUITES.values() for s in v))
@@ -48,6 +50,8 @@ try:
             out.append('witness: hit %s did not reproduce (discarded)' % case)
     else:
         out.append('witness: none %s' % (res.get('note', '')[:200]))
+    if proof_steps_only and any(x.startswith('witness: HIT') for x in out):
+        alarm = True
     # kani: all groups
     kw = os.path.join(d, 'k'); os.makedirs(kw)
     for h in kanirun.run_harnesses(repo, list(kanirun.GROUPS.keys()), 'quick', kw, 0):
